@@ -18,7 +18,7 @@ OutStart(out, j) ==
 InTimes(in, G) == [k \in DOMAIN in |-> StartTicks(in, G, 0, k)]
 
 WholeMeasuresFollow(in, G, k) ==
-    k < Len(in) /\
+    k < Len(in) /\ StartTicks(in, G, 0, k+1) > StartTicks(in, G, 0, k) /\
     (StartTicks(in, G, 0, k+1) - StartTicks(in, G, 0, k)) % (in[k].bl * in[k].met) = 0
 
 (* beat length active in `in` at time t *)
@@ -32,7 +32,8 @@ ReseatClauses(in, G, out, ot, tol) ==
     IN
     [ on_measure_lines |-> \A j \in DOMAIN out : out[j].bn = 0 /\ out[j].m >= 0,
       measures_increase |-> /\ Len(out) >= 1 /\ out[1].m = 0
-                            /\ \A j \in 1..Len(out)-1 : out[j].m < out[j+1].m,
+                            \* (two points may share a measure line only where the input overrides a tempo on the spot)
+                            /\ \A j \in 1..Len(out)-1 : out[j].m < out[j+1].m \/ (HasDup(in) /\ out[j].m = out[j+1].m),
       positive_bpm     |-> \A j \in DOMAIN out : out[j].bl > 0 /\ out[j].met >= 1,
       times_kept       |-> \A k \in 1..n : \E j \in DOMAIN out : Near(ot[j], ti[k]),
       bpm_kept         |-> \A k \in 1..n : (k = n \/ WholeMeasuresFollow(in, G, k)) =>
@@ -40,8 +41,10 @@ ReseatClauses(in, G, out, ot, tol) ==
       one_extra        |-> /\ \A k \in 1..n-1 :
                                 Cardinality({ j \in DOMAIN out : ot[j] > ti[k] + tol /\ ot[j] < ti[k+1] - tol }) <= 1
                            /\ \A j \in DOMAIN out : ot[j] <= ti[n] + tol /\ ot[j] >= 0 - tol,
+      \* (of several points at one time the last is the one in force)
       seated_same      |-> Seated(in) =>
-                              \A j \in DOMAIN out : Abs(out[j].bl - InBlAt(in, G, ot[j])) <= 1 ]
+                              \A j \in DOMAIN out : (j = Len(out) \/ ot[j+1] > ot[j] + tol) =>
+                                  Abs(out[j].bl - InBlAt(in, G, ot[j])) <= 1 ]
 
 ReseatRef(in, G, out, ot, tol) ==
     LET c == ReseatClauses(in, G, out, ot, tol) IN \A k \in DOMAIN c : c[k]
